@@ -439,7 +439,7 @@ theorem outer_fuel (addr : Bytes) : ∀ (fuel : Nat) (st : St) (errs : List Err)
         · rename_i hnf
           have hc : st.r.cnt + 4 ≤ st1.r.cnt := by
             rcases t1.2.2 with h0 | h0
-            · simp at h0; subst h0; simp [Err.nonfatal] at hnf
+            · simp at h0; subst h0; simp [nonfatalErr, Err.nonfatal] at hnf
             · exact h0
           have hl : st1.r.rem.length < n := by have := hadv.1; omega
           have t2 := ih _ _ _ _ _ hl h
